@@ -14,6 +14,27 @@ def isAsciiWord (c : Char) : Bool := isAsciiAlpha c || isAsciiDigit c || c == '_
 def isAsciiSpace (c : Char) : Bool :=
   c == ' ' || (9 ≤ c.toNat && c.toNat ≤ 13) || (28 ≤ c.toNat && c.toNat ≤ 31)
 
+/-- Unicode decimal digits outside ASCII come in blocks of ten; (BMP only; the translator
+    re-derives the table from the running interpreter and refuses to continue if it differs). -/
+def ndBlocks : List (Nat × Nat) :=
+  [(0x660,0x669),(0x6F0,0x6F9),(0x7C0,0x7C9),(0x966,0x96F),(0x9E6,0x9EF),(0xA66,0xA6F),
+   (0xAE6,0xAEF),(0xB66,0xB6F),(0xBE6,0xBEF),(0xC66,0xC6F),(0xCE6,0xCEF),(0xD66,0xD6F),
+   (0xDE6,0xDEF),(0xE50,0xE59),(0xED0,0xED9),(0xF20,0xF29),(0x1040,0x1049),(0x1090,0x1099),
+   (0x17E0,0x17E9),(0x1810,0x1819),(0x1946,0x194F),(0x19D0,0x19D9),(0x1A80,0x1A89),
+   (0x1A90,0x1A99),(0x1B50,0x1B59),(0x1BB0,0x1BB9),(0x1C40,0x1C49),(0x1C50,0x1C59),
+   (0xA620,0xA629),(0xA8D0,0xA8D9),(0xA900,0xA909),(0xA9D0,0xA9D9),(0xA9F0,0xA9F9),
+   (0xAA50,0xAA59),(0xABF0,0xABF9),(0xFF10,0xFF19)]
+
+def isDigitU (c : Char) : Bool :=
+  isAsciiDigit c || (c.toNat ≥ 128 && ndBlocks.any fun (a, b) => a ≤ c.toNat && c.toNat ≤ b)
+
+/-- decimal value of a (Unicode, BMP) decimal digit, as `int()` reads it -/
+def digitValU (c : Char) : Option Nat :=
+  if isAsciiDigit c then some (c.toNat - 48)
+  else if c.toNat ≥ 128 then
+    (ndBlocks.find? fun (a, b) => a ≤ c.toNat && c.toNat ≤ b).map fun (a, _) => (c.toNat - a) % 10
+  else none
+
 def lowerC (c : Char) : Char := if isAsciiUpper c then Char.ofNat (c.toNat + 32) else c
 def upperC (c : Char) : Char := if isAsciiLower c then Char.ofNat (c.toNat - 32) else c
 
